@@ -111,12 +111,6 @@ structure Entry (I : Inst) (m j c i : Nat) (b : Blk) : Prop where
   hc : c < b.size
   hi : i < b.n
 
-theorem stateIndex_eq (I : Inst) (m j c i : Nat) (b : Blk) (hb : (stateBlocks I)[j]? = some b) :
-    stateIndex I m j c i
-      = ctrlSize I + m * memberSize I + offsetOf (stateBlocks I) j + (c * b.n + i) := by
-  unfold stateIndex
-  simp [List.getD, hb]
-
 /-- state-pass entries lie after the controls and inside the decision vector -/
 theorem stateIndex_range (I : Inst) (m j c i : Nat) (b : Blk) (e : Entry I m j c i b) :
     ctrlSize I ≤ stateIndex I m j c i ∧ stateIndex I m j c i < totalSize I := by
@@ -546,6 +540,39 @@ theorem malformed_bound_raises (lower : Bool) (I : Inst) (hE : 0 < I.E) (j : Nat
       cases this
   rw [hnone]
   cases closedPass lower I.controls <;> rfl
+
+
+/-! ## several sources: the intersection applies -/
+
+/-- **Where several sources give bounds their intersection applies**: a value respects the
+    merged scalar bounds (`max` of the lower bounds, `min` of the upper bounds, as
+    `ModelicaMixin.bounds` forms them) iff it respects every source.  (Timeseries / vector
+    sources: `merge_bounds`, theorem `merge_elementwise` of C19.) -/
+theorem intersection_of_sources (los his : List EVal) (x : EVal) :
+    (intersectLo los ≤ x ↔ ∀ l ∈ los, l ≤ x) ∧ (x ≤ intersectHi his ↔ ∀ u ∈ his, x ≤ u) := by
+  have hlo : ∀ (acc : EVal) (l : List EVal), (l.foldl EVal.max acc ≤ x ↔ acc ≤ x ∧ ∀ a ∈ l, a ≤ x) := by
+    intro acc l
+    induction l generalizing acc with
+    | nil => simp
+    | cons a l ih =>
+      rw [List.foldl_cons, ih, EVal.max_eq, max_le_iff]
+      simp only [List.mem_cons, forall_eq_or_imp]
+      tauto
+  have hhi : ∀ (acc : EVal) (l : List EVal), (x ≤ l.foldl EVal.min acc ↔ x ≤ acc ∧ ∀ a ∈ l, x ≤ a) := by
+    intro acc l
+    induction l generalizing acc with
+    | nil => simp
+    | cons a l ih =>
+      rw [List.foldl_cons, ih, EVal.min_eq, le_min_iff]
+      simp only [List.mem_cons, forall_eq_or_imp]
+      tauto
+  constructor
+  · rw [intersectLo, hlo]
+    have : EVal.ninf ≤ x := by simp [EVal.le_def, EVal.le]
+    simp [this]
+  · rw [intersectHi, hhi]
+    have : x ≤ EVal.pinf := by cases x <;> simp [EVal.le_def, EVal.le]
+    simp [this]
 
 /-! ## link to C19 -/
 
